@@ -2,6 +2,8 @@ use crate::engine::{Failure, PropRun, RunCfg};
 use serde_json::Value;
 
 pub mod c01;
+pub mod c02;
+pub mod c03;
 pub mod c04;
 pub mod c05;
 pub mod c12;
@@ -18,6 +20,8 @@ pub struct PropDef {
 pub fn registry() -> Vec<PropDef> {
     vec![
         PropDef { id: c01::ID, run: c01::run, replay: c01::replay },
+        PropDef { id: c02::ID, run: c02::run, replay: c02::replay },
+        PropDef { id: c03::ID, run: c03::run, replay: c03::replay },
         PropDef { id: c04::ID, run: c04::run, replay: c04::replay },
         PropDef { id: c16::ID, run: c16::run, replay: c16::replay },
         PropDef { id: c18::ID, run: c18::run, replay: c18::replay },
